@@ -77,7 +77,7 @@ fn main() {
                     let size = std::fs::metadata(&full).map(|m| m.len()).unwrap_or(1);
                     let sum = verifier.compute_file_checksum(&full).map(|c| c.to_hex()).unwrap_or_else(|_| "0".into());
                     st.add_completed_file(
-                        CompletedFile { relative_path: PathBuf::from(rel), action: "create".into(), size, checksum: format!("xxhash3:{}", sum), completed_at: "2020-01-01T00:00:00+00:00".into() },
+                        CompletedFile { relative_path: PathBuf::from(rel), action: "create".into(), size, checksum: format!("xxhash3:{}", sum), completed_at: tk.get(4).map(|x| x.to_string()).unwrap_or_else(|| "2020-01-01T00:00:00+00:00".into()) },
                         size,
                     );
                 }
